@@ -9,7 +9,7 @@ CONSTANTS
   WV = {4}
   AM = {"p"}
   AV = {3}
-  RM = {"q"}
+  RM = {}
   SWV = {0}
   SAV = {1}
   RS = TRUE
